@@ -5,7 +5,8 @@ SPEC = dict(
     rule="inputs: every string of <=4 (thorough 5) tokens over 22 JSON tokens, <=4 over 30 YAML tokens, <=8 (10) over the 5 DSV symbols; "
          "every prefix / single-byte substitution / deletion (thorough: insertion) of ~200 (2000) JSON, ~85 (175) YAML and 18 DSV seed documents; "
          "nesting shapes x depth {128,129,255,256,257,384,385,5000,100000}; every string of <=3 (4) tokens over 62 jq program tokens, joined by ' ' and by ''; "
-         "CLI: the same alphabets one token shorter, 10 command lines. A case is distinct+non-trivial when the fingerprint of everything the "
+         "CLI: JSON / YAML strings of <=3 tokens, DSV <=6, programs <=2 (thorough 3) and the quick seed set (thorough: 47-byte substitution alphabet, plus "
+         "one more token in wall-budgeted slices), 10 command lines. A case is distinct+non-trivial when the fingerprint of everything the "
          "library returned for it (validator verdict, node count, every accessor's value, printed lengths) — CLI: (command, status, stderr class) — is new",
     level_text="Every input of the bounded spaces is indexed, validated, fully traversed through every public accessor and printed as JSON and YAML "
                "by the real library (each accessor call individually guarded, so one defect cannot mask another), and piped through the real "
